@@ -229,6 +229,8 @@ def classify(tname, src, probs):
     if tname == 'normalize_array_shape_and_access' and probs[0][0] in ('reparse', 'gfortran') and \
             re.search(r'\w\s*\([^()]*:[^(),]*:[^()]*\)', low):
         return 'normalize-shape-drops-stride'
+    if tname == 'merge_associates' and probs[0][0] == 'scope' and re.search(r'^\s*associate\s*\(', low, re.M):
+        return 'merge-associates-detached-scope'
     return None
 
 
@@ -373,7 +375,7 @@ class C41(Prop):
     extra_obligations = ['oracle: scope chains, declared-or-imported, re-parse and gfortran syntax check after every registered transformation']
 
     def classes(self):
-        return ['sanitise-imports-drops-bare-use', 'sanitise-imports-module-spec', 'remove-unused-vars-loop-variable', 'vector-notation-half-open-range', 'normalize-shape-drops-stride']
+        return ['sanitise-imports-drops-bare-use', 'sanitise-imports-module-spec', 'remove-unused-vars-loop-variable', 'vector-notation-half-open-range', 'normalize-shape-drops-stride', 'merge-associates-detached-scope']
 
     def gen(self, rng, tier):
         rounds = {'quick': 1, 'thorough': 8, 'search': 3}.get(tier, 1)
